@@ -45,6 +45,21 @@ theorem stretchCore_max (mn ptp lo hi : Rat) (hp : 0 < ptp) : stretchCore mn ptp
   field_simp
   ring
 
+theorem capHi_mono (lo hi x y : Rat) (hxy : x ≤ y) : capHi lo hi x ≤ capHi lo hi y := by
+  unfold capHi
+  by_cases h : hi < lo
+  · simp only [h, if_true]; exact hxy
+  · simp only [h, if_false]
+    by_cases hx : hi < x <;> by_cases hy : hi < y <;> simp only [hx, hy, if_true, if_false] <;> linarith
+
+theorem capHi_range (lo hi y : Rat) (h : lo ≤ hi) (hy : lo ≤ y) : lo ≤ capHi lo hi y ∧ capHi lo hi y ≤ hi := by
+  unfold capHi
+  have hnl : ¬ hi < lo := not_lt.mpr h
+  simp only [hnl, if_false]
+  by_cases hy' : hi < y <;> simp only [hy', if_true, if_false]
+  · exact ⟨h, le_refl _⟩
+  · exact ⟨hy, not_lt.mp hy'⟩
+
 theorem minL_le (m : Rat) (xs : List Rat) : minL m xs ≤ m ∧ ∀ x ∈ xs, minL m xs ≤ x := by
   induction xs generalizing m with
   | nil => simp [minL]
@@ -113,24 +128,19 @@ theorem stretchList_spec (xs : List Rat) (lo hi : Rat) (h : lo ≤ hi) :
   | nil => exact ⟨fun _ => lo, fun _ _ _ => le_refl _, by simp [stretchList], by simp, by simp⟩
   | cons x0 rest =>
     by_cases hp : 0 < maxL (x0 - minL x0 rest) (rest.map (· - minL x0 rest))
-    · refine ⟨stretchCore (minL x0 rest) (maxL (x0 - minL x0 rest) (rest.map (· - minL x0 rest))) lo hi,
-        fun x y hxy => stretchCore_mono _ _ _ _ _ _ hp h hxy, by simp [stretchList, hp], ?_, ?_⟩
+    · have hnl : ¬ hi < lo := not_lt.mpr h
+      refine ⟨fun x => capHi lo hi (stretchCore (minL x0 rest)
+          (maxL (x0 - minL x0 rest) (rest.map (· - minL x0 rest))) lo hi x),
+        fun x y hxy => capHi_mono lo hi _ _ (stretchCore_mono _ _ _ _ _ _ hp h hxy),
+        by simp [stretchList, hp], ?_, ?_⟩
       · intro x hx
         have hmn : minL x0 rest ≤ x := by
           rcases List.mem_cons.mp hx with rfl | hx
           · exact (minL_le _ _).1
           · exact (minL_le _ _).2 x hx
-        have hmx : x ≤ minL x0 rest + maxL (x0 - minL x0 rest) (rest.map (· - minL x0 rest)) := by
-          rcases List.mem_cons.mp hx with rfl | hx
-          · have := (le_maxL (x - minL x rest) (rest.map (· - minL x rest))).1; linarith
-          · have := (le_maxL (x0 - minL x0 rest) (rest.map (· - minL x0 rest))).2 (x - minL x0 rest)
-              (List.mem_map.mpr ⟨x, hx, rfl⟩)
-            linarith
-        constructor
-        · have := stretchCore_mono (minL x0 rest) _ lo hi _ _ hp h hmn
-          rwa [stretchCore_min] at this
-        · have := stretchCore_mono (minL x0 rest) _ lo hi _ _ hp h hmx
-          rwa [stretchCore_max _ _ _ _ hp] at this
+        have := stretchCore_mono (minL x0 rest) _ lo hi _ _ hp h hmn
+        rw [stretchCore_min] at this
+        exact capHi_range lo hi _ h this
       · intro m hm hmin
         have hmem : minL x0 rest ∈ x0 :: rest := by
           rcases minL_mem x0 rest with e | e
@@ -142,7 +152,9 @@ theorem stretchList_spec (xs : List Rat) (lo hi : Rat) (h : lo ≤ hi) :
           · exact (minL_le _ _).1
           · exact (minL_le _ _).2 m hm
         have : m = minL x0 rest := le_antisymm h1 h2
-        rw [this]; exact stretchCore_min _ _ _ _
+        show capHi lo hi (stretchCore _ _ lo hi m) = lo
+        rw [this, stretchCore_min]
+        simp [capHi, hnl]
     · exact ⟨fun _ => lo, fun _ _ _ => le_refl _, by simp [stretchList, hp],
         fun _ _ => ⟨le_refl _, h⟩, fun _ _ _ => rfl⟩
 
